@@ -52,6 +52,9 @@ class AppLog:
         self.outcome_by_ord = {}         # open ordinal -> ('ret', v) | ('raise',)
         self.sid_ord = {}                # sid -> open ordinal (from the X-Verif-Open header)
         self.ord_sid = {}
+        self.busy = 0                    # handlers currently running (incl. their delay)
+        self.delay = {}                  # event -> virtual seconds the handler takes (it logs
+                                         # the event first, then sleeps: other causes may race)
 
     def _connect(self, sid, environ):
         self.events.append((self.world.clock.now, 'connect', sid, None))
@@ -98,10 +101,13 @@ class AppLog:
         return {'RuntimeError': RuntimeError, 'TypeError': TypeError, 'KeyError': KeyError,
                 'ValueError': ValueError, 'OSError': OSError}.get(name, RuntimeError)
 
-    def install(self, server, coroutine_handlers, legacy_disconnect=False):
+    def install(self, server, coroutine_handlers, legacy_disconnect=False, sleep=None):
         """legacy_disconnect: register the documented one-argument disconnect handler; the reason
-        is then not visible to the log (recorded as None)."""
+        is then not visible to the log (recorded as None).  sleep: blocking sleep of the world
+        (threaded world) used for handler delays."""
         if coroutine_handlers:
+            import asyncio
+
             async def connect(sid, environ):
                 r = self._connect(sid, environ)
                 for d in self.connect_sends:
@@ -109,15 +115,42 @@ class AppLog:
                 return r
 
             async def message(sid, data):
-                return self._message(sid, data)
+                self.busy += 1
+                try:
+                    return self._message(sid, data)
+                finally:
+                    try:
+                        if self.delay.get('message'):
+                            await asyncio.sleep(self.delay['message'])
+                    finally:
+                        self.busy -= 1
+
+            async def _disc(sid, reason):
+                self.busy += 1
+                try:
+                    return self._disconnect(sid, reason)
+                finally:
+                    try:
+                        if self.delay.get('disconnect'):
+                            await asyncio.sleep(self.delay['disconnect'])
+                    finally:
+                        self.busy -= 1
 
             if legacy_disconnect:
                 async def disconnect(sid):
-                    return self._disconnect(sid, None)
+                    return await _disc(sid, None)
             else:
                 async def disconnect(sid, reason):
-                    return self._disconnect(sid, reason)
+                    return await _disc(sid, reason)
         else:
+            def nap(event):
+                if sleep is not None and self.delay.get(event):
+                    self.busy += 1
+                    try:
+                        sleep(self.delay[event])
+                    finally:
+                        self.busy -= 1
+
             def connect(sid, environ):
                 r = self._connect(sid, environ)
                 for d in self.connect_sends:
@@ -125,14 +158,23 @@ class AppLog:
                 return r
 
             def message(sid, data):
-                return self._message(sid, data)
+                try:
+                    return self._message(sid, data)
+                finally:
+                    nap('message')
 
             if legacy_disconnect:
                 def disconnect(sid):
-                    return self._disconnect(sid, None)
+                    try:
+                        return self._disconnect(sid, None)
+                    finally:
+                        nap('disconnect')
             else:
                 def disconnect(sid, reason):
-                    return self._disconnect(sid, reason)
+                    try:
+                        return self._disconnect(sid, reason)
+                    finally:
+                        nap('disconnect')
         server.on('connect', connect)
         server.on('message', message)
         server.on('disconnect', disconnect)
@@ -142,7 +184,7 @@ class AWorld:
     impl = 'async'
 
     def __init__(self, config=None, coroutine_handlers=True, app_kwargs=None, raise_after_close=True,
-                 legacy_disconnect=False, clock=None, loop=None):
+                 legacy_disconnect=False, clock=None, loop=None, handler_delay=None):
         import engineio
         self.clock = clock or vclock.reset()
         vclock.patch_engineio_time()
@@ -153,6 +195,7 @@ class AWorld:
         self.config = cfg
         self.server = engineio.AsyncServer(async_mode='asgi', **cfg)
         self.app_log = AppLog(self)
+        self.app_log.delay = dict(handler_delay or {})
         self.app_log.install(self.server, coroutine_handlers, legacy_disconnect)
         self.app = engineio.ASGIApp(self.server, **(app_kwargs or {}))
         self.raise_after_close = raise_after_close
